@@ -52,6 +52,8 @@ def termbmc(sel: List[int]) -> bool:
             picks = [al[i] for i in P.get("first", [])] + picks[len(P.get("fixed", [])):] if P.get("first") else picks
             for j in range(0, len(picks) - 2, 3):
                 items.append(("T", picks[j], picks[j + 1], picks[j + 2]))
+                if len({picks[j], picks[j + 1], picks[j + 2]}) > sizes[0]:
+                    return True   # the statement needs more names than the table holds: C18's subject, outside this claim
             picks = []
         for i, t in enumerate(picks):
             s = picks[i - 1] if (P.get("two") and i > 0 and integ == "generic") else B
